@@ -10,9 +10,9 @@ WORKER = os.path.join(common.VERIF, "harness", "tracker_worker.py")
 ALL = {"f1", "f2", "g", "d", "e", "h"}
 
 
-def cfg(name, maxreq, gen=False, use=("f1", "f2", "g", "d"), clients=(1, 2)):
+def cfg(name, maxreq, gen=False, use=("f1", "f2", "g", "d"), clients=(1, 2), recreate=False):
     path = os.path.join(common.VERIF, "out", "cfg", "RT_%s.cfg" % name)
-    k = dict(Clients=set(clients), MaxReq=maxreq, Use=set(use))
+    k = dict(Clients=set(clients), MaxReq=maxreq, Use=set(use), Recreate=recreate)
     if gen:
         tlc.write_cfg(path, constants=k, init="Init", next="Next", constraint="Emit")
     else:
@@ -34,12 +34,18 @@ def body(c):
     rng = random.Random(c.seed)
     c.model_check("ResourceTracker[2 clients, %d requests]" % (6 if c.quick else 7), "ResourceTracker", cfg("mc", 6 if c.quick else 7), workers=16, timeout=1500)
     c.model_check("ResourceTracker[nested folders]", "ResourceTracker", cfg("mcf", 6, use=("d", "e", "h", "g"), clients=(1,)), workers=16, timeout=1500)
+    c.model_check("ResourceTracker[paths created again]", "ResourceTracker", cfg("mcr", 6, use=("g", "d"), clients=(1,), recreate=True), workers=16, timeout=1500)
     L = 3 if c.quick else 4
     r = tlc.run("ResourceTracker", cfg("gen", L, gen=True), workers=1, timeout=1500, heap="6g"); c.add_tlc("ResourceTracker-gen[L=%d]" % L, r)
     hists = tlc.printed_json(r)
     r = tlc.run("ResourceTracker", cfg("genf", 4 if c.quick else 5, gen=True, use=("d", "e", "h"), clients=(1,)), workers=1, timeout=1500, heap="6g"); c.add_tlc("ResourceTracker-gen[folders]", r)
     hf = tlc.printed_json(r)
     c.extra["sequences_folders"] = len(hf)
+    # names that come back after they were deleted (a count that reached zero while the path was already gone, then a new file there)
+    r = tlc.run("ResourceTracker", cfg("genr", 5 if c.quick else 6, gen=True, use=("g", "d"), clients=(1,), recreate=True), workers=1, timeout=1500, heap="6g"); c.add_tlc("ResourceTracker-gen[recreate]", r)
+    hr = [h for h in tlc.printed_json(r) if any(e["cmd"] == "CREATE" for e in h)]
+    c.extra["sequences_recreate"] = len(hr)
+    if len(hr) > (3000 if c.quick else 60000): hr = rng.sample(hr, 3000 if c.quick else 60000)
     r = tlc.run("ResourceTracker", cfg("sim", 10, gen=True, use=sorted(ALL)), simulate="num=%d" % (400 if c.quick else 4000), depth=25, seed=c.seed + 11, workers=1, timeout=900)
     c.add_tlc("ResourceTracker-simulate", r)
     long = [h for h in tlc.printed_json(r) if len(h) >= 5]
@@ -47,7 +53,7 @@ def body(c):
     cap = 5000 if c.quick else 100000
     if len(hists) > cap: hists = rng.sample(hists, cap)
     if len(hf) > cap: hf = rng.sample(hf, cap)
-    allh = hists + hf + long
+    allh = hists + hf + hr + long
     base = common.scratch("c20")
     nw = 14
     jobs = [(base, k, allh[k::nw], k % 2 == 0) for k in range(nw)]
@@ -67,7 +73,7 @@ def body(c):
     c.extra["synced_requests"] = synced; c.extra["sequences_with_hook_trace"] = hooked; c.extra["reference_count_mismatches_vs_model"] = cm
     c.drift += cm
     for h in allh[:: max(1, len(allh) // 3)][:3]: c.sample([[e["c"], e["cmd"], e["x"]] for e in h])
-    c.rule = ("every request sequence of length <= %d of ResourceTracker.tla (2 clients; REGISTER / MAYBE_UNLINK / UNREGISTER / malformed line on 2 files, a folder and "
+    c.rule = ("every request sequence of length <= %d of ResourceTracker.tla (2 clients; REGISTER / MAYBE_UNLINK / UNREGISTER / malformed, empty or blank line / re-creation of a deleted path on 2 files, a folder and "
               "a file inside it; client gone; end of all clients) plus TLC-simulated sequences up to 10 requests, sent verbatim to a real resource_tracker.main on a "
               "private pipe; after every request (sentinel barrier) the set of existing paths must be the model's, the tracker must be alive, and after the "
               "last client is gone exactly the still-registered paths disappear; with the hook on, reference counts are compared too (drift); distinct = sequence" % L)
